@@ -118,3 +118,7 @@ func VerifyCalls() int
 func Watch(ptr interface{}, name string)
 func RacyLocations() int
 func AssertLockDiscipline()
+
+// DeliverLateAnswers delivers Diameter answers that were delayed beyond the
+// client's timeout (Config "diam.answerMayBeLate"); returns how many reached a handler.
+func DeliverLateAnswers() int
